@@ -123,6 +123,7 @@ type Exec struct {
 	zeroRow  *Term
 	headRefs []*Term
 	wrapSigned bool
+	assumeCalleePre bool
 }
 
 type Frame struct {
@@ -316,7 +317,14 @@ func (x *Exec) typeConstraint(v *Term, t types.Type) *Term {
 		return And(Ge(SArr(v), IntLit(0)), Ge(SOff(v), IntLit(0)), Ge(SLen(v), IntLit(0)), Le(SLen(v), SCap(v)),
 			Le(SCap(v), IntLit(1<<62)), Le(SOff(v), IntLit(1<<62)),
 			Implies(Eq(SArr(v), IntLit(0)), And(Eq(SLen(v), IntLit(0)), Eq(SCap(v), IntLit(0)))))
-	case *types.Pointer, *types.Interface, *types.Map, *types.Chan, *types.Signature:
+	case *types.Interface:
+		if types.Identical(u, errorIface) {
+			// a non-nil error holds a value of a type that implements error
+			x.eng.DeclareUF("implErr", SBool, SInt)
+			return And(Ge(v, IntLit(0)), Implies(Neq(v, IntLit(0)), App("implErr", SBool, x.dynType(v))))
+		}
+		return Ge(v, IntLit(0))
+	case *types.Pointer, *types.Map, *types.Chan, *types.Signature:
 		return Ge(v, IntLit(0))
 	case *types.Struct:
 		var cs []*Term
@@ -579,10 +587,17 @@ func (x *Exec) strLit(s string) *Term {
 	if t, ok := strLits[s]; ok {
 		return t
 	}
-	t := x.eng.UF(fmt.Sprintf("str$%d", len(strLits)), SStr)
+	name := fmt.Sprintf("str$%d", len(strLits))
+	if s == "" {
+		name = "str$empty"
+	}
+	t := x.eng.UF(name, SStr)
 	strLits[s] = t
+	strLitLen[name] = len(s)
 	return t
 }
+
+var strLitLen = map[string]int{}
 
 func (x *Exec) zeroOf(t types.Type) *Term {
 	switch u := t.Underlying().(type) {
@@ -786,6 +801,24 @@ func (fr *Frame) cutHead(n *vnode) {
 		}
 		nv := x.freshVal(phi.Comment+"$"+phi.Name(), phi.Type())
 		n.defs[phi] = nv
+		// range loops: the hidden index only counts up from -1 (rangeindex) / 0 (rangeint)
+		if nv.T != nil && nv.T.S.K == KInt {
+			if phi.Comment == "rangeindex" {
+				x.vc.Assume(Ge(nv.T, IntLit(-1)))
+				// ... and stays below the length it is compared with (len >= 0): phi' = phi+1 only if phi+1 < len
+				for _, in2 := range n.b.Instrs {
+					if bo, ok := in2.(*ssa.BinOp); ok && bo.Op == token.LSS {
+						if inc, ok := bo.X.(*ssa.BinOp); ok && inc.X == ssa.Value(phi) {
+							if lv := fr.lookup(bo.Y, n); lv != nil && lv.T != nil && lv.T.S.K == KInt {
+								x.vc.Assume(Lt(nv.T, Ite(Ge(lv.T, IntLit(0)), lv.T, IntLit(0))))
+							}
+						}
+					}
+				}
+			} else if phi.Comment == "rangeint.iter" {
+				x.vc.Assume(Ge(nv.T, IntLit(0)))
+			}
+		}
 		if nv.T != nil {
 			switch phi.Type().Underlying().(type) {
 			case *types.Slice:
